@@ -24,7 +24,7 @@ from __future__ import annotations
 import ast
 import itertools
 
-from ..model import AnalysisError, Program, attr_chain, bind_args, norm_stmt
+from ..model import AnalysisError, Program, attr_chain, bind_args, norm_stmt, unpinned_helper_calls
 from ..report import Result
 from ..selftest import Variant
 
@@ -277,10 +277,15 @@ def _check_calls(prog: Program, res: Result):
         e_ = Engine(prog, fi, Hooks())
         s_ = State()
         s_.env["no_go_boundaries"] = Rat.atom("no_go_boundaries")
-        c_ = e_.cond(guard.test, s_)
         L_ = _sym.call("len", [Rat.atom("no_go_boundaries")])
-        # len(z) > 0 | len(z) >= 1 | len(z) != 0 | z   (the cut is in the branch taken when there ARE zones)
-        okg = cmp_is(c_, L_, "+") or cmp_is(c_, L_ - Rat.const(1), "+0") or cmp_is(c_, L_, "+-") or ast.unparse(guard.test) == "no_go_boundaries"
+        # len(z) > 0 | len(z) >= 1 | len(z) != 0 | z   (the cut is in the branch taken when there ARE zones).  In a conjunction
+        # one such part is what this rule asks for; whether the other parts let an uncut field through is decided on the
+        # paths above (the field that is appended must have gone through both cuts whenever there are zones)
+        parts = guard.test.values if isinstance(guard.test, ast.BoolOp) and isinstance(guard.test.op, ast.And) else [guard.test]
+        okg = False
+        for pt in parts:
+            c_ = e_.cond(pt, s_)
+            okg = okg or cmp_is(c_, L_, "+") or cmp_is(c_, L_ - Rat.const(1), "+0") or cmp_is(c_, L_, "+-") or ast.unparse(pt) == "no_go_boundaries"
     res.ob("R04.2", f"the no-go cut is skipped only when there are no no-go zones ({ast.unparse(guard.test) if guard else 'unconditional'})", okg, prog.loc(fi, second))
     if not okg:
         res.violation("R04.2", f"nogo-guard|{ast.unparse(guard.test)}", prog.loc(fi, second), q, f"the no-go cut-out is applied only if '{ast.unparse(guard.test)}'")
@@ -428,6 +433,8 @@ def _check_codes(prog: Program, res: Result):
                 if isinstance(n, ast.If) and any(r is x for b_ in n.body for x in ast.walk(b_)):
                     guard = n
             t = ast.unparse(guard.test) if guard is not None else ""
+            if guard is not None and unpinned_helper_calls(prog, fi, guard.test):
+                raise AnalysisError(f"{q}: the on-edge test is delegated to {unpinned_helper_calls(prog, fi, guard.test)}, a helper the inliner could not expand (generator / return inside a loop)")
             ok = "on_edge_tolerance" in t and "<" in t
             gt = guard.test if guard is not None else None
             if not ok and isinstance(gt, ast.Compare) and len(gt.ops) == 1 and isinstance(gt.ops[0], ast.Eq) and isinstance(gt.left, ast.Name) \
@@ -594,27 +601,72 @@ def _check_order(prog: Program, res: Result):
     rq = f"{DOM}.reorder_domain"
     rfi = prog.func(rq)
     res.analysed(rq)
+    once = {}
+    nst = {}
+    for s_ in ast.walk(rfi.node):
+        if isinstance(s_, ast.Name) and isinstance(s_.ctx, ast.Store):
+            nst[s_.id] = nst.get(s_.id, 0) + 1
+    for s_ in ast.walk(rfi.node):
+        if isinstance(s_, ast.Assign) and len(s_.targets) == 1 and isinstance(s_.targets[0], ast.Name) and nst.get(s_.targets[0].id) == 1:
+            once[s_.targets[0].id] = s_.value
+
+    def through(e):
+        # a local bound once stands for its value; list(x) of an iterable is that iterable as far as sorting goes
+        for _ in range(3):
+            if isinstance(e, ast.Name) and e.id in once:
+                e = once[e.id]
+            elif isinstance(e, ast.Call) and attr_chain(e.func) == "list" and len(e.args) == 1 and not e.keywords:
+                e = e.args[0]
+            else:
+                break
+        return e
+
+    # the sort: sorted(pairs, key=..)  or  pairs = list(..); pairs.sort(key=..)  - both are the stable built-in sort
     srt = [c for c in ast.walk(rfi.node) if isinstance(c, ast.Call) and attr_chain(c.func) == "sorted"]
-    if len(srt) != 1:
+    inplace = [c for c in ast.walk(rfi.node) if isinstance(c, ast.Call) and isinstance(c.func, ast.Attribute) and c.func.attr == "sort" and isinstance(c.func.value, ast.Name)
+               and c.func.value.id in once and not c.args]
+    if len(srt) + len(inplace) != 1:
         res.violation("R04.4", "no-sorted", prog.loc(rfi, rfi.node), rq, "reorder_domain no longer sorts with the stable built-in sorted()")
         return
-    kw = {k.arg: k.value for k in srt[0].keywords}
+    site = (srt + inplace)[0]
+    sorted_local = inplace[0].func.value.id if inplace else None
+    kw = {k.arg: k.value for k in site.keywords}
     rev = kw.get("reverse")
     asc = rev is None or (isinstance(rev, ast.Constant) and rev.value is False)
     key = kw.get("key")
-    okk = isinstance(key, ast.Lambda) and ast.unparse(key.body).replace(" ", "") == f"len({key.args.args[0].arg}[0])"
-    arg = srt[0].args[0] if srt[0].args else None
+    key_arg, key_body = None, None
+    if isinstance(key, ast.Lambda) and len(key.args.args) == 1:
+        key_arg, key_body = key.args.args[0].arg, key.body
+    elif isinstance(key, ast.Name):
+        # a named key function (local or module level) with a single return
+        fdefs = [f_ for f_ in ast.walk(rfi.node) if isinstance(f_, ast.FunctionDef) and f_.name == key.id and f_ is not rfi.node]
+        if not fdefs:
+            kf = prog.funcs.get(f"{DOM}.{key.id}")
+            fdefs = [kf.node] if kf is not None else []
+        if len(fdefs) == 1:
+            body_ = [b_ for b_ in fdefs[0].body if not (isinstance(b_, ast.Expr) and isinstance(b_.value, ast.Constant))]
+            if len(body_) == 1 and isinstance(body_[0], ast.Return) and len(fdefs[0].args.args) == 1 and body_[0].value is not None:
+                key_arg, key_body = fdefs[0].args.args[0].arg, body_[0].value
+    okk = key_body is not None and ast.unparse(key_body).replace(" ", "") == f"len({key_arg}[0])"
+    arg = through(site.args[0]) if srt and site.args else (through(ast.Name(id=sorted_local, ctx=ast.Load())) if inplace else None)
     okz = isinstance(arg, ast.Call) and attr_chain(arg.func) == "zip" and [ast.unparse(a) for a in arg.args] == ["domain", "descriptors"]
-    res.ob("R04.4", "reorder_domain: sorted(zip(domain, descriptors), key = size of the field), ascending", bool(asc and okk and okz), prog.loc(rfi, srt[0]))
+    res.ob("R04.4", "reorder_domain: sorted(zip(domain, descriptors), key = size of the field), ascending", bool(asc and okk and okz), prog.loc(rfi, site))
     if not asc:
-        res.violation("R04.4", "descending", prog.loc(rfi, srt[0]), rq, "reorder_domain sorts in descending order: candidate lists must be ordered by non-decreasing borehole count")
+        res.violation("R04.4", "descending", prog.loc(rfi, site), rq, "reorder_domain sorts in descending order: candidate lists must be ordered by non-decreasing borehole count")
     if not okk:
-        res.violation("R04.4", f"sort-key|{ast.unparse(key) if key is not None else None}", prog.loc(rfi, srt[0]), rq, f"reorder_domain sorts by {ast.unparse(key) if key is not None else 'the tuples themselves'} instead of the number of boreholes of each field")
+        res.violation("R04.4", f"sort-key|{ast.unparse(key) if key is not None else None}", prog.loc(rfi, site), rq, f"reorder_domain sorts by {ast.unparse(key) if key is not None else 'the tuples themselves'} instead of the number of boreholes of each field")
     if not okz:
-        res.violation("R04.4", "sort-pairs", prog.loc(rfi, srt[0]), rq, "reorder_domain does not sort (field, descriptor) pairs together")
-    rets = [x for x in ast.walk(rfi.node) if isinstance(x, ast.Return)]
+        res.violation("R04.4", "sort-pairs", prog.loc(rfi, site), rq, "reorder_domain does not sort (field, descriptor) pairs together")
+    rets = [x for x in ast.walk(rfi.node) if isinstance(x, ast.Return) and not any(x is y for f_ in ast.walk(rfi.node) if isinstance(f_, ast.FunctionDef) and f_ is not rfi.node for y in ast.walk(f_))]
+
+    def is_sorted_value(e) -> bool:
+        if srt:
+            e2 = through(e) if isinstance(e, ast.Name) else e
+            return any(c is srt[0] for c in ast.walk(e2))
+        return isinstance(e, ast.Name) and e.id == sorted_local
+
     sorted_rets = [x for x in rets if isinstance(x.value, ast.Call) and attr_chain(x.value.func) == "zip" and x.value.args and isinstance(x.value.args[0], ast.Starred)
-                   and any(c is srt[0] for c in ast.walk(x.value))]
+                   and is_sorted_value(x.value.args[0].value) and (not inplace or inplace[0].lineno < x.lineno)]
     okr = bool(sorted_rets)
     res.ob("R04.4", "reorder_domain returns the sorted pairs unzipped (fields, descriptors)", okr, prog.loc(rfi, rfi.node))
     if not okr:
